@@ -56,6 +56,9 @@ BUILTINS = (list, dict, tuple, type(None), deque, OrderedDict, defaultdict)
 # handlers for all struct sequences are filed.  (collections.namedtuple, the other stand-in, is a function and is refused as
 # "not a class".)  No instance has exactly this type; what a registration of it does shows in the observations of time.struct_time.
 MARKERS = (optree.typing.structseq,)
+# ordinary classes as far as the registry is concerned (not in the built-in set), but the commonest leaves there are: a
+# classification shortcut for them would bypass a registration
+SCALARS = (int, str, float)
 KIND = optree.PyTreeKind
 
 
@@ -123,12 +126,14 @@ def universe_for_run():
     fresh_tm = U.MetaHook('FreshTM', (tuple,), {})
     fresh_pm = U.MetaHook('FreshPM', (object,), {'__init__': U.PM.__init__})
     fresh_nt = type('FreshNT', (collections.namedtuple('FreshNTBase', ['p', 'q']),), {'__slots__': ()})
-    return [U.CA, CAsub, U.NTM, fresh_nt, fresh_tm, fresh_pm, U.STRUCTSEQ_TYPES[0], U.CE, list, dict, type(None), deque, MARKERS[0]]
+    return [U.CA, CAsub, U.NTM, fresh_nt, fresh_tm, fresh_pm, U.STRUCTSEQ_TYPES[0], U.CE, list, dict, type(None), deque, MARKERS[0]] + list(SCALARS)
 
 
 def instance_of(cls):
     if cls in MARKERS:
         return None
+    if cls in SCALARS:
+        return cls(7)
     if cls in BUILTINS:
         if cls is type(None):
             return None
@@ -536,7 +541,7 @@ def run_job(job, io):
                 oplog.append('dataclass-retry(Plain,a)->ok')
                 observe(model, types, instances, all_funcs, viol, 'dataclass:retry', probes)
             retry_cls = None
-        keys.add('%s|%s|%s|%s|%s' % (hash(model.digest(types)) & 0xffff, opk, getattr(cls, '__name__', cls) if cls in types[:13] else 'DC', fault or '-', outcome.split(':')[0]))
+        keys.add('%s|%s|%s|%s|%s' % (hash(model.digest(types)) & 0xffff, opk, getattr(cls, '__name__', cls) if cls in types[:16] else 'DC', fault or '-', outcome.split(':')[0]))
         if violations:
             break
     # ---- reversibility: unregister everything, state must equal the pristine one
